@@ -191,7 +191,7 @@ def panelVerdicts (f : Feat) (props : List String) (p : Panel) (sc : Scenario) (
     -- "a display call THEN triggers exactly one refresh": the display call that follows an update
     if ok ∧ want "C01" ∧ prevFull ∧ (name == "disp" ∨ name == "dispnew") then acc := acc.add "C01" (c01Disp p a before after) ctx
     -- C06
-    if ok ∧ want "C06" ∧ !(partTargets p.name name).isEmpty then acc := acc.add "C06" (c06 p a t.evs before after) ctx
+    if ok ∧ want "C06" ∧ (!(partTargets p.name name).isEmpty ∨ name == "pclear") then acc := acc.add "C06" (c06 p a t.evs before after) ctx
 
     if want "C06" ∧ partOps.contains name ∧ t.res == .panic then
       acc := acc.add "C06" [s!"site={site} reason=panic got=panic want=window-programmed"]
